@@ -753,7 +753,20 @@ pub fn cmd_migrate_replay(args: &HashMap<String, String>) -> i32 {
                         db.process_commits().map_err(|e| format!("{e}"))?;
                     }
                 }
-                for st in &steps[..steps.len() - 1] {
+                let pending = mig["pending"].as_bool().unwrap_or(false);
+                let nops = steps.len() - 1;
+                for (j, st) in steps[..nops].iter().enumerate() {
+                    if pending && j + 2 == nops {
+                        // everything before the last two operations is applied and its log recycled
+                        let mut guard = 0;
+                        while db.verif_pipeline_sizes().0 > 0 && guard < 64 {
+                            db.process_commits().map_err(|e| format!("{e}"))?;
+                            guard += 1;
+                        }
+                        db.flush_logs().map_err(|e| format!("{e}"))?;
+                        db.enact_logs().map_err(|e| format!("{e}"))?;
+                        db.clean_logs().map_err(|e| format!("{e}"))?;
+                    }
                     let c = st["c"].as_u64().unwrap() as usize - 1;
                     let k = st["k"].as_u64().unwrap();
                     let key = mig_key(uniform, c, k);
@@ -763,6 +776,22 @@ pub fn cmd_migrate_replay(args: &HashMap<String, String>) -> i32 {
                         _ => parity_db::Operation::Reference(key),
                     };
                     db.commit_changes(vec![(c as u8, op)]).map_err(|e| format!("source commit: {e}"))?;
+                }
+                if pending {
+                    // the source "process" dies with its last operations in a synced, unapplied log: the crash image
+                    // (a copy of the directory taken now) becomes the source of the migration
+                    let mut guard = 0;
+                    while db.verif_pipeline_sizes().0 > 0 && guard < 64 {
+                        db.process_commits().map_err(|e| format!("{e}"))?;
+                        guard += 1;
+                    }
+                    db.flush_logs().map_err(|e| format!("{e}"))?;
+                    let img = sdir.with_file_name(format!("m{idx}img"));
+                    let _ = std::fs::remove_dir_all(&img);
+                    copy_dir(&sdir, &img).map_err(|e| format!("image: {e}"))?;
+                    drop(db);
+                    std::fs::remove_dir_all(&sdir).map_err(|e| format!("{e}"))?;
+                    std::fs::rename(&img, &sdir).map_err(|e| format!("{e}"))?;
                 }
             }
             let overwrite = mig["overwrite"].as_bool().unwrap();
